@@ -102,7 +102,7 @@ def check_or_halves(func, rep, rule, where_txt, inst_prefix=""):
                 continue
             n += 1
             why = _sign_extends(lo)
-            if why is None and node.k == "CompoundAssignOperator":
+            if why is None and (node.k == "CompoundAssignOperator" or (strip_casts(lo) is not None and strip_casts(lo).k == "DeclRefExpr" and strip_casts(lo).get("dk") == "local")):
                 # `acc |= hi << 32`: the low half is whatever acc was given before; look at its other definitions
                 acc = strip_casts(lo)
                 if acc is not None and acc.k == "DeclRefExpr":
